@@ -19,6 +19,8 @@ var ErrInjected = errors.New("verif: injected transport error")
 type ReadStep struct {
 	N   int    `json:"n"`
 	Err string `json:"err,omitempty"` // "" | "deadline" | "eof" | "inject"
+	// SleepMs > 0: the Read blocks this long (real time) before it returns, as a slow device would make it.
+	SleepMs int `json:"sleep_ms,omitempty"`
 }
 
 // Script describes what the transport does after the request has been written.
@@ -111,6 +113,7 @@ func (c *Conn) Read(p []byte) (int, error) {
 	c.reads++
 	var n int
 	var err error
+	sleep := 0
 	if c.S.CancelAtRead > 0 && c.reads == c.S.CancelAtRead && c.Cancel != nil {
 		c.Cancel()
 	}
@@ -118,6 +121,7 @@ func (c *Conn) Read(p []byte) (int, error) {
 		st := c.S.Steps[c.step]
 		c.step++
 		n = st.N
+		sleep = st.SleepMs
 		if n > len(c.S.Reply)-c.pos {
 			n = len(c.S.Reply) - c.pos
 		}
@@ -137,6 +141,9 @@ func (c *Conn) Read(p []byte) (int, error) {
 	c.log("read", n, err, p[:n])
 	idle := c.idle
 	c.mu.Unlock()
+	if sleep > 0 {
+		time.Sleep(time.Duration(sleep) * time.Millisecond)
+	}
 	if idle > 40 {
 		time.Sleep(150 * time.Microsecond) // keep a spinning client from burning the CPU; not part of any verdict
 	}
